@@ -8,7 +8,8 @@
 (* calls, and prints one vector per input for the binding.                   *)
 EXTENDS Entry, Json
 
-CONSTANTS ProgPool, ValuePool, MaxItems
+CONSTANTS ProgPool, ValuePool, MaxItems,
+          BytePool      \* the byte-level variants enumerated by this configuration
 
 VARIABLES items, phase
 vars == <<inp, outs, items, phase>>
@@ -20,18 +21,20 @@ AddItem == /\ phase = "build" /\ Len(items) < MaxItems
            /\ UNCHANGED <<inp, outs, phase>>
 
 StartProg == /\ phase = "build" /\ Len(items) >= 1
-             /\ \E st \in Styles, p \in Precisions : Begin([kind |-> "prog", items |-> items, style |-> st, prec |-> p])
+             /\ \E st \in Styles, p \in Precisions, b \in BytePool \cap ByteVariants :
+                    Begin([kind |-> "prog", items |-> items, style |-> st, prec |-> p, bytes |-> b])
              /\ phase' = "run" /\ UNCHANGED items
 
 StartValue == /\ phase = "build" /\ items = <<>>
-              /\ \E v \in ValuePool, st \in Styles, p \in Precisions : Begin([kind |-> "value", v |-> v, style |-> st, prec |-> p])
+              /\ \E v \in ValuePool, st \in Styles, p \in Precisions, b \in BytePool \cap ContentPreserving :
+                    Begin([kind |-> "value", v |-> v, style |-> st, prec |-> p, bytes |-> b])
               /\ phase' = "run" /\ UNCHANGED items
 
 (* the abstract compiler: one function of the input, whatever the entry point *)
 ModelOut(i) == [k |-> "ok", v |-> IF i.kind = "value" THEN Framed(i.style, "V") ELSE "CSS"]
 ModelValue(i) == [k |-> "ok", v |-> "V"]
 
-RunEntry == /\ phase = "run"
+RunEntry == /\ phase = "run" /\ inp.bytes = "plain"      \* the interleavings do not depend on the spelling: explored once per input
             /\ \E e \in AllEntries :
                  IF e = "value" THEN CompileValue(ModelValue(inp)) ELSE Call(e, ModelOut(inp))
             /\ UNCHANGED <<items, phase>>
